@@ -19,7 +19,8 @@ EXPLANATION = (
     "gate's wires in their original order, target last (no call lists w[k] before w[j] for k > j, controls are "
     "w[0:-1] and the target w[-1]); (SB-TWIN) OpenQASM 2 and 3 generate the gate body with identical code; "
     "(MP-formals-provenance) the QASM formal parameter list, the call's actual list and the gate operands are all "
-    "derived from the same index set 0..num_qubits-1 through the same naming function.  It does NOT decide unitary "
+    "derived from the same index set 0..num_qubits-1 through the same naming function, and the printed text is an "
+    "injective function of the qubit's name (no regex substitution / replace / case folding / slicing on it).  It does NOT decide unitary "
     "equality nor the foreign frameworks' own semantics."
 )
 NOT_DECIDED = "unitary equality; semantics of qiskit/cirq/sympy/pennylane/qasm"
